@@ -245,7 +245,7 @@ def run_sessions(ctx, sessions, stream_name="runsess", timeout=5.0):
 # ----------------------------------------------------------------------------
 # generator of whole programs
 # ----------------------------------------------------------------------------
-LEN_UNITS = ["m", "km", "cm", "mm", "metres", "kilometre", "ft", "in", "mi", "yd", "μm", "au"]
+LEN_UNITS = ["m", "km", "cm", "mm", "metres", "kilometre", "ft", "inch", "mi", "yd", "μm", "au"]
 TIME_UNITS = ["s", "min", "h", "ms", "d", "seconds", "hours", "week", "ks"]
 MASS_UNITS = ["kg", "g", "mg", "t", "lb", "grams", "kilogram"]
 TEMP_UNITS = ["K", "degC", "degF"]
